@@ -320,7 +320,11 @@ def explore_bfs(init_state, actions, invariants, max_states=20000, stats=None, n
                     continue
                 k = child.key()
                 sk = (st.key(), a.name)
-                if sk in succ and succ[sk] != k:
+                conflict = sk in succ and succ[sk] != k
+                if conflict:
+                    # the abstraction merged two concrete states with different futures: count it, and expand this concrete
+                    # successor as well (below) even if its abstract state already has its representatives, so that the
+                    # divergent future is explored rather than lost (bounded, so that the search still terminates)
                     stats["nondeterministic_abstract_successors"] += 1
                     stats.setdefault("conflict_examples", []).append((st.trace + [a.name], succ[sk], k))
                 succ[sk] = k
@@ -331,7 +335,7 @@ def explore_bfs(init_state, actions, invariants, max_states=20000, stats=None, n
                     seen.add(k)
                     reps[k] = 1
                     nxt.append(child)
-                elif reps.get(k, 0) < nreps:
+                elif reps.get(k, 0) < nreps or (conflict and stats["nondeterministic_abstract_successors"] <= 200):
                     # a second concrete representative of the same abstract state is expanded too: this is what
                     # measures whether the abstraction merges states with different futures
                     reps[k] = reps.get(k, 0) + 1
